@@ -121,17 +121,19 @@ def parse_config_file(path: str, kwargs: dict):
                 kwargs["httpseeds"] = val
 
             elif key.lower() == "web-seed":
-                kwargs.setdefault("url-list", [])
-                kwargs["url-list"] = val
+                kwargs["url_list"] = val
 
             else:
-                kwargs[key.lower()] = val
+                kwargs["announce"] = val
 
         elif key.lower() == "piece-length":
             kwargs["piece_length"] = val
 
         elif key.lower() == "meta-version":
             kwargs["meta_version"] = val
+
+        elif key.lower() == "out":
+            kwargs["outfile"] = val
 
         elif val.lower() == "true":
             kwargs[key.lower()] = True
